@@ -453,6 +453,17 @@ def sinv(a):
     a = _np.asarray(a, dtype=object)
     n = a.shape[0]
     ctx = sym.cur()
+    if n <= 3:
+        # exact inverse adj(A)/det(A) under the contract's own assumption det A != 0
+        d = sdet(a)
+        if isinstance(d, SReal):
+            ctx.assume(lift(d) != 0)
+        adj = _cofactor_inverse_times_det(a)
+        X = _np.empty((n, n), dtype=object)
+        for i in range(n):
+            for j in range(n):
+                X[i, j] = adj[i, j] / d
+        return X.view(SymArr)
     X = _np.empty((n, n), dtype=object)
     for i in range(n):
         for j in range(n):
